@@ -10,8 +10,7 @@ THEOREM_CFG = """SPECIFICATION Spec
 CONSTANTS
   NORB = {norb}
   NELECS <- {nel}
-INVARIANT QuarticAgrees
-INVARIANT Hermitian
+{quartic}INVARIANT Hermitian
 INVARIANT NumberOp
 INVARIANT Leibniz
 CHECK_DEADLOCK FALSE
@@ -22,8 +21,9 @@ def theorems(chk: Check):
     """design level: the reference semantics is self-consistent (exhaustive, small constants)"""
     cfgs = [(2, "Nel2q")] if chk.tier == "quick" else [(2, "Nel2"), (3, "Nel3")]
     for norb, nel in cfgs:
-        r = chk.tlc("FockTheorems", THEOREM_CFG.format(norb=norb, nel=nel), name=f"FockTheorems-{norb}",
-                    timeout=3000)
+        # the literal quartic sum is O(configs^2 * orbitals^4): exhaustive for 2 orbitals only
+        r = chk.tlc("FockTheorems", THEOREM_CFG.format(norb=norb, nel=nel, quartic="INVARIANT QuarticAgrees\n" if norb == 2 else ""),
+                    name=f"FockTheorems-{norb}", timeout=3000)
         if r.violated:
             raise MachineryError(f"oracle self-consistency theorem {r.violated_name} failed (norb={norb}); "
                                  f"the specification is wrong, nothing is reported about the code")
